@@ -221,5 +221,41 @@ def run(ctx, progs):
                "the inner-hit window is not `from` (drain of 0..from) followed by `size` (truncate): %s" % (
                    "drain range is not 0..from" if not from_ok else "truncate is not to inner_hits.size" if not size_ok else "size is applied before from"),
                Site(f, db).loc())
+    # ---- (e) one global sort in resort_hits
+    ctx.rule("R18.e", "ONE SORT (the inner hits are ordered as a whole): in resort_hits the sort that orders the result is applied once, "
+                      "outside every loop, to the list the return value is built from, and nothing is combined into that list afterwards "
+                      "(extend / append / chain / flatten / flat_map / concat): sorting per segment (or per any sub-list) and "
+                      "concatenating orders the inner hits only within each part")
+    if g is not None:
+        from sa.rules.C25 import natural_loops
+        gl = natural_loops(g)
+        gsorts2 = [(b, t) for h_ in [g] for b, t in h_.calls() if re.search(r"::(sort_by|sort_unstable_by|sort_by_key|sort_by_cached_key|sort|sort_unstable)$", callee_of(t))]
+        in_loop = [b for b, t in gsorts2 if any(b in body for h, body in gl)]
+        COMB = r"::(extend|append|chain|flatten|flat_map|concat|extend_from_slice|flat_map)$"
+        after = []
+        for b, t in gsorts2:
+            for b2, t2 in g.calls():
+                if re.search(COMB, callee_of(t2)) and b2 in g.reachable_from(b) and b2 != b:
+                    after.append((b2, callee_of(t2)))
+        # closures of resort_hits sorting sub-lists
+        clos_sorts = [(c_, b) for c_ in P.closures_of(g) for b, t in c_.calls()
+                      if re.search(r"::(sort_by|sort_unstable_by|sort_by_key|sort|sort_unstable)$", callee_of(t))]
+        gs2 = Slice(g, through_all_calls=True)
+        ret_from_sorted = False
+        for b, t in gsorts2:
+            names = {l for l in Slice(g).locals(t["args"][0]) if g.locals[l].get("name")}
+            for d in g.defs().get(0, []):
+                ops = d["t"]["args"] if d["k"] == "call" else d["rv"].get("ops", [d["rv"].get("a")])
+                for o in ops:
+                    if o is not None and isinstance(o, dict) and names & gs2.locals(o):
+                        ret_from_sorted = True
+        ok_e = len(gsorts2) == 1 and not in_loop and not after and not clos_sorts and ret_from_sorted
+        ctx.ob("R18.e", "R18.e:resort_hits:one-global-sort", ok_e,
+               "resort_hits sorts the whole list once and returns it in that order" if ok_e else
+               "resort_hits does not order the inner hits as a whole: %s" % (
+                   "the sort runs inside a loop (per sub-list)" if in_loop or clos_sorts else
+                   "%d sorts" % len(gsorts2) if len(gsorts2) != 1 else
+                   "lists are combined after the sort (%s)" % after[0][1].rsplit("::", 1)[-1] if after else
+                   "the value returned is not built from the sorted list"), "%s:%s" % (g.file, g.line))
     ctx.assumptions += ["the hit list handed to collapse_hits is sorted by the request's sort key (C10 / C11)",
                         "collapse_value returns the single keyword value of the hit's document (or an error for multi-valued fields)"]
